@@ -11,10 +11,10 @@ JOBS = [
     dict(job=('specs.tr_units', 'w_op_recording', {}), props=['C01', 'C03', 'C04', 'C05', 'C09', 'C17', 'C18', 'C11'], cases='w_op'),
     dict(job=('specs.tr_units', 'w_op_passthrough', {'mode': 'disabled'}), props=['C04']),
     # the input / output wrappers when NOT intercepting: idle recorder, or a call nested inside another interception
-    dict(job=('specs.tr_units', 'w_passthrough', {'unit': 'in', 'mode': 'idle'}), props=['C04', 'C09']),
-    dict(job=('specs.tr_units', 'w_passthrough', {'unit': 'out', 'mode': 'idle'}), props=['C04', 'C09', 'C03']),
-    dict(job=('specs.tr_units', 'w_passthrough', {'unit': 'in', 'mode': 'nested'}), props=['C04', 'C09']),
-    dict(job=('specs.tr_units', 'w_passthrough', {'unit': 'out', 'mode': 'nested'}), props=['C04', 'C09', 'C03']),
+    dict(job=('specs.tr_units', 'w_passthrough', {'unit': 'in', 'mode': 'idle'}), props=['C04', 'C09', 'C01']),
+    dict(job=('specs.tr_units', 'w_passthrough', {'unit': 'out', 'mode': 'idle'}), props=['C04', 'C09', 'C03', 'C01']),
+    dict(job=('specs.tr_units', 'w_passthrough', {'unit': 'in', 'mode': 'nested'}), props=['C04', 'C09', 'C01']),
+    dict(job=('specs.tr_units', 'w_passthrough', {'unit': 'out', 'mode': 'nested'}), props=['C04', 'C09', 'C03', 'C01']),
     # statement-level thread interference (thorough tier only: ~10 minutes)
     dict(job=('specs.tr_units', 'w_in_recording_interference', {'case': {'dh': 'none', 'res': 'none', 'fb': 'none'}}), props=['C04'], tier='thorough'),
     dict(job=('specs.tr_units', 'w_op_playback', {}), props=['C01', 'C02', 'C03']),
@@ -63,7 +63,7 @@ JOBS = [
     dict(job=('specs.cassettes', 'in_memory_iter', {}), props=['C10', 'C19']),
     dict(job=('specs.cassettes', 'category_units', {}), props=['C10', 'C19']),
     dict(job=('specs.cassettes', 'pickle_copy_unit', {}), props=['C11', 'C01', 'C07', 'C04', 'C03']),
-    dict(job=('specs.cassettes', 'file_roundtrip', {}), props=['C07', 'C11', 'C05', 'C01', 'C06']),
+    dict(job=('specs.cassettes', 'file_roundtrip', {}), props=['C07', 'C11', 'C05', 'C01', 'C06', 'C10']),
     dict(job=('specs.cassettes', 'file_iter', {}), props=['C10', 'C19']),
     dict(job=('specs.cassettes', 'file_create', {}), props=['C07', 'C10', 'C04']),
     dict(job=('specs.cassettes', 'base_cassette_misc', {}), props=['C05', 'C04', 'C17', 'C11', 'C07', 'C15']),
@@ -112,8 +112,8 @@ def native_witness(name, prop, script, finding=None, args=()):
 
     def run():
         t0 = time.time()
-        p = subprocess.run(['/venv/bin/python', os.path.join('/verif', script)] + list(args), capture_output=True, text=True, timeout=300, cwd='/repo',
-                           env=dict(os.environ, PYTHONPATH='/repo'))
+        p = subprocess.run(['/venv/bin/python', os.path.join('/verif', script)] + list(args), capture_output=True, text=True, timeout=300, cwd=os.environ.get('PYVC_REPO', '/repo'),
+                           env=dict(os.environ, PYTHONPATH=os.environ.get('PYVC_REPO', '/repo')))
         v = 'valid' if p.returncode == 0 else 'refuted' if p.returncode == 1 else 'undecided'
         r = {'name': name, 'prop': prop, 'verdict': v, 'time': round(time.time() - t0, 2), 'backend': 'native', 'finding': finding, 'expect_refuted': False,
              'script': 'native witness %s %s: %s' % (script, ' '.join(args), (p.stdout.strip().splitlines() or [''])[-1][:300])}
@@ -158,6 +158,8 @@ def extra_for(prop, tier, seed):
 
 
 BOUNDED = {'specs.studio.grouping': 'replay/bounded/c19_grouping.py',
+           # the copy function itself (more specific than the cassette family below: listed first)
+           'specs.cassettes.pickle_copy_unit': 'replay/bounded/c11_copy.py',
            # S3 lookup: real cassette + facade over the fake bucket, windows around midnights, repeated lookups on one cassette object
            'specs.s3.s3_id_prefixes': 'replay/bounded/c16_s3_lookup.py', 'specs.s3.facade_iter_keys': 'replay/bounded/c16_s3_lookup.py',
            'specs.s3.s3_iter_recording_ids': 'replay/bounded/c16_s3_lookup.py', 'specs.s3.s3_prefix_iterators': 'replay/bounded/c16_s3_lookup.py',
@@ -173,7 +175,9 @@ BOUNDED = {'specs.studio.grouping': 'replay/bounded/c19_grouping.py',
            # recording side: what a run stores after other runs = what it stores on a fresh recorder; finalised once; flags follow the outcome
            'specs.tr_units.w_op_recording': 'replay/bounded/c09_recording_sequences.py', 'specs.tr_units.w_in_recording': 'replay/bounded/c09_recording_sequences.py',
            'specs.tr_units.w_out{\'mode\': \'recording\'': 'replay/bounded/c09_recording_sequences.py', 'specs.tr_helpers.post_metadata': 'replay/bounded/c09_recording_sequences.py',
-           'specs.tr_small.': 'replay/bounded/c09_recording_sequences.py', 'specs.c01.tr_init': 'replay/bounded/c09_recording_sequences.py',
+           # only the small recorder units the battery really drives through varied histories (a stand-in that never calls the unit must not decide it)
+           'specs.tr_small.discard_recording': 'replay/bounded/c09_recording_sequences.py', 'specs.tr_small.force_sample_recording': 'replay/bounded/c09_recording_sequences.py',
+           'specs.tr_small.reset_active_recording': 'replay/bounded/c09_recording_sequences.py', 'specs.c01.tr_init': 'replay/bounded/c09_recording_sequences.py',
            'specs.matcher.match_value': 'replay/bounded/c14_matcher.py',
            # asynchronous cassette: gated storage operations, the battery chooses the interleaving of producer / flusher / close
            'specs.async_cas.': 'replay/bounded/c12_async.py',
@@ -186,7 +190,7 @@ BOUNDED = {'specs.studio.grouping': 'replay/bounded/c19_grouping.py',
 
 # native search batteries: when an obligation of these units is refuted and the counter-model has no scenario driver, the battery is run on the
 # real code to look for a CONCRETE failing input (bounded; a clean battery leaves the violation reported with no-failing-input-found)
-SEARCH = [('specs.cassettes.', 'replay/bounded/c07_cassettes.py'), ('specs.s3.s3_save_get', 'replay/bounded/c07_cassettes.py'), ('specs.s3.s3_close', 'replay/bounded/c07_cassettes.py'),
+SEARCH = [('specs.cassettes.pickle_copy_unit', 'replay/bounded/c11_copy.py'), ('specs.cassettes.', 'replay/bounded/c07_cassettes.py'), ('specs.s3.s3_save_get', 'replay/bounded/c07_cassettes.py'), ('specs.s3.s3_close', 'replay/bounded/c07_cassettes.py'),
           ('specs.s3.s3_create', 'replay/bounded/c07_cassettes.py'), ('specs.s3.facade_units', 'replay/bounded/c07_cassettes.py'), ('specs.s3.s3_category', 'replay/bounded/c07_cassettes.py'),
           ('specs.s3.s3_id_prefixes', 'replay/bounded/c16_s3_lookup.py'), ('specs.s3.facade_iter_keys', 'replay/bounded/c16_s3_lookup.py'),
           ('specs.s3.s3_iter_recording_ids', 'replay/bounded/c16_s3_lookup.py'), ('specs.s3.s3_prefix_iterators', 'replay/bounded/c16_s3_lookup.py'),
